@@ -87,6 +87,12 @@ CATALOGUE = [
     ('C04-d', 'C04', 'circus/watcher.py',
      "            if len(self.processes) >= self.numprocesses:\n                # numprocesses was lowered while we were sleeping\n                break\n",
      ""),
+    ('C18-d', 'C18', 'circus/config.py',
+     "                    watcher['stop_signal'] = to_signum(val)",
+     "                    watcher['stop_signal'] = int(val) if val.isdigit() else getattr(signal, val.upper())"),
+    ('C11-d', 'C11', 'circus/commands/set.py',
+     "        self._check_options(watcher, props.get('options', {}))\n",
+     ""),
     ('C07-a', 'C07', 'circus/sockets.py',
      "        if hasattr(self, 'set_inheritable'):\n            self.set_inheritable(True)",
      "        if hasattr(self, 'set_inheritable'):\n            self.set_inheritable(False)"),
